@@ -710,6 +710,9 @@ func staticMain(prop, tier, build, overlay, repo, cffBin string) {
 			}
 		}
 	}
+	if prop == "C13" {
+		evaluations += c13MultiPackage(build, repo, cffBin, rep)
+	}
 	var modCov map[string]any
 	if prop == "C20" {
 		modCov = c20Modifier(tier, build, overlay, repo, cffBin, rep)
@@ -810,4 +813,51 @@ func (g *genSet) buildAll() {
 		}
 	}
 	mc.ToolError("building generated packages did not converge")
+}
+
+// c13MultiPackage: one invocation of the tool over several packages of a
+// module (cff ./...), two of which contain a cff file with the same base name.
+// Every file with a directive must get its output and the module must compile
+// without the cff tag.
+func c13MultiPackage(build, repo, cffBin string, rep *mc.Reporter) int {
+	n := 0
+	for _, mode := range []string{"base", "source-map"} {
+		root := filepath.Join(build, "multipkg-"+mode)
+		os.RemoveAll(root)
+		writeGoMod(root, repo)
+		for name, c := range fsFiles {
+			writeFile(filepath.Join(root, "fsp", name), c)
+		}
+		for name, c := range fsOther {
+			writeFile(filepath.Join(root, "fsq", name), c)
+		}
+		// a third package whose file names equal those of the first
+		for _, name := range []string{"a.go", "xa.go"} {
+			writeFile(filepath.Join(root, "fsr", name), strings.Replace(fsFiles[name], "package fsp", "package fsr", 1))
+		}
+		_, se, code := run(root, goEnv, cffBin, "-genmode="+mode, "./...")
+		n++
+		report := func(msg string) {
+			scj, _ := json.Marshal(map[string]string{"invocation": "cff -genmode=" + mode + " ./...", "packages": "fsp fsq fsr"})
+			rep.Report(&mc.Replay{Property: "C13", Engine: "genmc-static", Key: "multipkg:" + mode, Scenario: scj, Message: msg})
+		}
+		if strings.Contains(se, "panic:") || strings.Contains(se, "goroutine ") {
+			report("the cff tool died with a Go panic on a multi-package invocation: " + firstLines(grepPanic(se), 3))
+			continue
+		}
+		if code != 0 {
+			report("cff ./... failed on valid packages: " + firstLines(se, 3))
+			continue
+		}
+		want := []string{"fsp/a_gen.go", "fsp/b.v2_gen.go", "fsp/xa_gen.go", "fsp/d_gen_test.go", "fsq/a_gen.go", "fsr/a_gen.go", "fsr/xa_gen.go"}
+		for _, w := range want {
+			if _, err := os.Stat(filepath.Join(root, w)); err != nil {
+				report("cff ./... exited successfully but wrote no " + w + " (a cff file of one package was skipped)")
+			}
+		}
+		if _, se, code := run(root, goEnv, "go", "build", "./..."); code != 0 {
+			report("cff ./... exited successfully but the module does not compile without the cff tag: " + firstLines(se, 3))
+		}
+	}
+	return n
 }
